@@ -81,6 +81,47 @@ CHECKS.update({
              "the order of two applicable conditions open either status is accepted; ext4/relatime; single directory."),
 })
 
+CHECKS.update({
+    "C11": dict(
+        engine="hx_proto", category="exploration", design_ref="DESIGN.md section 4 C11, Appendix C",
+        technique="runtime monitoring: reference model of the lzma_code wrapper stepped in lock-step with the real handle over random legal/illegal call histories; guard-page windows",
+        text="Random call histories (60-300 calls, 1 in 14 illegal) on handles of 18 coder types are executed while a model of "
+             "the wrapper written from base.h predicts every wrapper-level guarantee: PROG_ERROR for illegal calls with no "
+             "field moved, STREAM_END after end, BUF_ERROR only on the second stuck call and not fatal, exact pointer/avail/"
+             "total accounting, nothing written before next_out, and correct data from histories that end normally.",
+        note="The model is partial by design (coder results are inputs); histories stop at the first LZMA_PROG_ERROR because "
+             "the documentation forbids continuing; finite random histories, not all sequences."),
+    "C12": dict(
+        engine="hx_flush", category="exploration", design_ref="DESIGN.md section 4 C12",
+        technique="runtime monitoring: prefix-decodability monitor at the instant a flush returns, Block-boundary audit through the Index, refusal monitor for unsupported sync flush and illegal lzma_filters_update, final round trip",
+        text="Random action scripts (RUN/SYNC_FLUSH/FULL_FLUSH/FULL_BARRIER/FINISH with lzma_filters_update in between) over "
+             "the stream, easy, threaded, raw, Block and .lzma encoders; when a flush completes a fresh decoder over the "
+             "output so far must reproduce the input so far; chains that cannot sync-flush must refuse; the Index must show "
+             "Block boundaries exactly where requested and no empty Block; the final stream must decode to everything.",
+        note="Prefix decoding uses the matching liblzma decoder and Block boundaries come from liblzma's file-info decoder; "
+             "scripts and offsets are sampled."),
+    "C20": dict(
+        engine="c20", category="exploration", design_ref="DESIGN.md section 4 C20",
+        technique="runtime monitoring: differential against system grep/diff/cmp on decompressed copies, strace exec-trace allow-list monitor, canary-file and cwd-listing monitors, label monitor; both label methods",
+        text="Random invocations of the generated xzgrep/xzegrep/xzfgrep/xzdiff/xzcmp run under strace with 0-6 operands in all "
+             "suffix-recognised formats, tame or hostile names and patterns, options in random spellings, with grep --label "
+             "and with the sed fallback forced. stdout and exit status are compared with system grep/diff/cmp on the "
+             "decompressed contents; every exec'd program is checked against an allow-list derived from the scripts; no "
+             "canary or other file may appear; every output label must be one of the given names.",
+        note="Trusts the image's GNU grep 3.8, diffutils 3.8, sed, expr, dash and strace; contradictory option pairs and "
+             "xzdiff stdin-as-FILE2 are out of the workload (listed in the evidence assumptions); xzgrep -q -l printing the "
+             "name is a listed known finding."),
+})
+
+ENGINES += [
+    {"name": "hx_proto", "path": "harness/hx_proto.c", "serves_properties": ["C11"],
+     "kind_free_text": "lock-step reference-model monitor of the lzma_code wrapper"},
+    {"name": "hx_flush", "path": "harness/hx_flush.c", "serves_properties": ["C12"],
+     "kind_free_text": "flush/option-update script monitor with prefix-decodability oracle"},
+    {"name": "c20", "path": "lib/checks/c20.py", "serves_properties": ["C20"],
+     "kind_free_text": "Python driver over the rel build's xzgrep/xzdiff scripts under strace"},
+]
+
 ENGINES += [
     {"name": "hx_dec", "path": "harness/hx_dec.c", "serves_properties": ["C04", "C06"],
      "kind_free_text": "decoder-side monitors (robustness, slicing independence) under ASan/UBSan/MSan with guard-page slicer and allocator monitor"},
